@@ -46,6 +46,11 @@ CHECKS = {
          "Every sequence of up to 3 (thorough 4) remaps from a 12-element alphabet (affine: translation, negative/non-uniform scale, 90-degree rotations, shear, general rotation; remap_xyz: permutation, non-linear, constant, free-variable, duplicated-axis and min/max expressions) is applied through the builder API to four targets (one with a free variable), to sub-trees before combination, and to one sub-tree shared under two different frames; the imported result is evaluated at 54 dyadic points and compared with the composed substitution (later remaps act on coordinates first), exactly where all entries are dyadic; collapse of consecutive affine remaps is checked structurally.",
          "Trusted: f64 closure composition as the reference; builder API only (hand-built nested RemapAffine nodes are outside the claim).",
          "DESIGN.md §4 C13"),
+ "C14": ("model_checking",
+         "exhaustive enumeration of variable sets x operand orders x supply orders x transforms x evaluator kinds (VM, JIT) through the Shape API, vs. an explicit Var->value map",
+         "Weighted sums over every subset of {X,Y,Z} united with 0..4 and 30 free variables are written in every operand order (so that first-encounter numbering takes every permutation) and evaluated through the Shape API with variables supplied in both orders, with an unrelated extra variable, with one variable missing (the error must name it), with no / identity / affine / projective transform, by point, interval, float-slice (scalars and arrays) and grad-slice evaluators of both backends, and again after a simplification that drops a variable (map unchanged); values are compared exactly with an explicit identity-keyed map at the f64-transformed position.",
+         "Trusted: dyadic data make the comparison exact; the reference map.",
+         "DESIGN.md §4 C14"),
  "C15": ("model_checking",
          "bounded-exhaustive enumeration of programs x budgets; bytecode executed by a documentation-only interpreter and compared with the VM",
          "Every program of the C01 sets is serialised with Bytecode::new at budgets that force memory traffic and executed by an interpreter written only from the format documentation (opcode numbers by name from iter_ops); outputs must equal the VM's bit-for-bit and every structural promise (markers, word count, register/memory bounds, reserved register) is checked on every bytecode.",
